@@ -122,9 +122,15 @@ pub enum RedOp {
 #[derive(Clone, Copy, Debug, PartialEq, Eq)]
 pub enum TargetKind {
     Vec,
+    /// SplitVec, doubling growth, 32 fragments reserved
     SplitDoubling,
+    /// SplitVec, linear growth with fragments of 2^14 elements
     SplitLinear,
     Fixed,
+    /// `SplitVec::new()`: doubling growth with the default fragments capacity (concurrent capacity 60)
+    SplitNew,
+    /// `SplitVec::with_linear_growth(4)`: fragments of 16 elements, default fragments capacity
+    SplitLinearSmall,
 }
 
 #[derive(Clone, Copy, Debug, PartialEq, Eq)]
@@ -517,6 +523,8 @@ impl Term {
                     TargetKind::SplitDoubling => "splitd",
                     TargetKind::SplitLinear => "splitl",
                     TargetKind::Fixed => "fixed",
+                    TargetKind::SplitNew => "splitnew",
+                    TargetKind::SplitLinearSmall => "splitlsmall",
                 },
                 t.prefix,
                 t.spare
@@ -558,6 +566,8 @@ impl Term {
                         "splitd" => TargetKind::SplitDoubling,
                         "splitl" => TargetKind::SplitLinear,
                         "fixed" => TargetKind::Fixed,
+                        "splitnew" => TargetKind::SplitNew,
+                        "splitlsmall" => TargetKind::SplitLinearSmall,
                         _ => return None,
                     },
                     prefix: v.get(1)?.parse().ok()?,
